@@ -1093,6 +1093,66 @@ Proof.
   intros H. apply run_ops_invariant; [rewrite blank_types; exact H|apply blank_wt].
 Qed.
 
+(* ---- several records: the constructor is state free, operations on one record leave the others alone ---- *)
+
+Lemma construct_no_args kw ts : construct F E kw ts [] = Ok (blank kw ts).
+Proof.
+  induction ts as [|t ts IH]; [reflexivity|]. cbn [construct tl]. unfold init_slot at 1. cbn [is_none].
+  rewrite IH. reflexivity.
+Qed.
+
+Lemma nth_error_set_nth_other {A} (l : list A) : forall j k a, j <> k ->
+  nth_error (set_nth l j a) k = nth_error l k \/ (List.length l <= j)%nat.
+Proof.
+  induction l as [|x l IH]; intros j k a Hjk; [right; cbn; lia|].
+  destruct j as [|j].
+  - left. destruct k as [|k]; [congruence|reflexivity].
+  - destruct k as [|k]; [left; reflexivity|].
+    destruct (IH j k a (fun H => Hjk (f_equal S H))) as [H|H]; [left|right; cbn; lia].
+    unfold set_nth in *. cbn [firstn skipn app nth_error]. exact H.
+Qed.
+
+Lemma set_nth_keeps {A} (l : list A) j k a r : nth_error l j <> None -> j <> k -> nth_error l k = Some r ->
+  nth_error (set_nth l j a) k = Some r.
+Proof.
+  intros Hj Hjk Hk. destruct (nth_error_set_nth_other l j k a Hjk) as [H|H]; [rewrite H; exact Hk|].
+  exfalso. apply Hj. apply nth_error_None. exact H.
+Qed.
+
+(* frame: whatever is done to record j (in-place mutation included) or appended, every OTHER record stays as it is *)
+Theorem wstep_frame kw ts w o k r : nth_error w k = Some r -> targets o k = false ->
+  nth_error (fst (wstep F E kw ts w o)) k = Some r.
+Proof.
+  intros Hk Ht. assert (Hlt : (k < List.length w)%nat) by (apply nth_error_Some; congruence).
+  destruct o as [args|j i x|j o|j kvs]; cbn [wstep targets] in *.
+  - destruct (construct F E kw ts args); cbn [fst]; [rewrite nth_error_app1 by exact Hlt|]; exact Hk.
+  - apply Nat.eqb_neq in Ht. destruct (nth_error w j) eqn:Hj; cbn [fst]; [|exact Hk].
+    apply set_nth_keeps; [congruence|exact Ht|exact Hk].
+  - apply Nat.eqb_neq in Ht. destruct (nth_error w j) eqn:Hj; cbn [fst]; [|exact Hk].
+    destruct (step F E kw r0 o) as [r' oc]. cbn [fst]. apply set_nth_keeps; [congruence|exact Ht|exact Hk].
+  - destruct (nth_error w j); cbn [fst]; [|exact Hk].
+    destruct (replace F E kw r0 kvs); cbn [fst]; [rewrite nth_error_app1 by exact Hlt|]; exact Hk.
+Qed.
+
+(* the record D(args) does not depend on what happened before *)
+Theorem new_record_state_free kw ts w w' args :
+  match construct F E kw ts args with
+  | Ok r => wstep F E kw ts w (WNew args) = (w ++ [r], Accepted) /\ wstep F E kw ts w' (WNew args) = (w' ++ [r], Accepted)
+  | Raise e => wstep F E kw ts w (WNew args) = (w, Raised e) /\ wstep F E kw ts w' (WNew args) = (w', Raised e)
+  end.
+Proof. cbn [wstep]. destruct (construct F E kw ts args); split; reflexivity. Qed.
+
+(* ... and built without values it holds the documented defaults, every time *)
+Theorem new_without_values_is_default kw ts w : wstep F E kw ts w (WNew []) = (w ++ [blank kw ts], Accepted).
+Proof. cbn [wstep]. rewrite construct_no_args. reflexivity. Qed.
+
+(* so an in-place mutation of one record can never make ANOTHER record ill typed *)
+Corollary mutation_is_local kw ts w j i x k r : nth_error w k = Some r -> j <> k -> well_typed r = true ->
+  exists r', nth_error (fst (wstep F E kw ts w (WMutate j i x))) k = Some r' /\ well_typed r' = true.
+Proof.
+  intros Hk Hjk Hw. exists r. split; [|exact Hw]. apply wstep_frame; [exact Hk|]. cbn. apply Nat.eqb_neq. exact Hjk.
+Qed.
+
 End Main.
 
 (* ------------------------------------------------------------------------------------------ *)
